@@ -5477,6 +5477,9 @@ class Symbol:
                 and self.orig_type
                 and ((not self.choice) or self.choice._user_selection is None)
             )
+            # A user value (or a user selection of the enclosing choice) has no effect while the symbol is hidden:
+            # the value it shows, and the line written for it, comes from its defaults
+            or bool(self.orig_type and not self.visibility)
         )
 
     def value_is_valid(self, value: Any) -> bool:
